@@ -669,10 +669,20 @@ func (p *Path) assertObligKnown(cond *Term, label string, known *Term, finding s
 			ob.Reason = "no solver decided within the cap"
 		}
 	case "sat":
-		if p.ex.siteBudget(label) {
+		bkey := label
+		if p.ambient {
+			// counterexamples that depend on a schedule choice (map order, capacity) may not
+			// reproduce natively: they get their own budget so that deterministic ones are not starved
+			bkey += "#schedule-dependent"
+		}
+		if p.ex.siteBudget(bkey) {
 			p.refineAndRecord(ob, neg)
 		} else {
 			ob.Status = "violated-unrefined"
+			ob.Choices = map[string]int{}
+			for k, c := range p.choices {
+				ob.Choices[k] = c
+			}
 		}
 	}
 	p.assume(goal)
